@@ -332,6 +332,36 @@ class LockAnalysis:
             problems += [(b,) + p for p in probs]
         return IN, per, problems
 
+    def lockset_may(self, fn, entry=frozenset()):
+        """Forward MAY-held dataflow (union at joins): locks held on at least
+        one path.  Used to see a lock leaked on a single exit path."""
+        evm = self.events(fn)
+        IN = {b: None for b in fn.blocks}
+        IN[fn.entry] = frozenset(entry)
+        work = [fn.entry]
+        while work:
+            b = work.pop()
+            cur = set(IN[b])
+            for evs in evm[b]:
+                for e in evs:
+                    if e[0] == "acq":
+                        cur.add(e[1])
+                    elif e[0] == "rel":
+                        cur.discard(e[1])
+                    elif e[0] == "call" and e[1]:
+                        g = self.prog.resolve(e[1], fn)
+                        if g is not None:
+                            net = self.net_effect(g)
+                            cur |= net[0]
+                            cur -= net[1]
+            cur = frozenset(cur)
+            for t in fn.blocks[b].succ_ids():
+                new = cur if IN[t] is None else (IN[t] | cur)
+                if new != IN[t]:
+                    IN[t] = new
+                    work.append(t)
+        return IN
+
     def _flow_block(self, fn, stmts_events, cur, record=False):
         trace = []
         probs = []
